@@ -67,7 +67,7 @@ def run(ctx):
     ctx.coverage["rule"] = ("generated programs with rule violations at random positions (member index, parameter/return/throws/generic "
                             "position, namespace depth, own/imported file); distinct = distinct multiset of rule tags reported by the model "
                             "together with the file count; non-trivial = at least one diagnostic")
-    n = ctx.n(600, 8000)
+    n = ctx.n(2400, 20000)
     cases, reqs, specreqs, todo = [], [], [], []
     for i in range(n):
         multi = (i % 3 == 2)
@@ -91,7 +91,7 @@ def run(ctx):
             ctx.stat("rule_" + str(t))
         if mo[0] == "syntax":
             # text outside the grammar: the model only predicts "positioned diagnostics" (C06)
-            if impl["kind"] != "diags":
+            if impl["kind"] not in ("diags", "raised"):
                 breaks.append({"files": files, "why": "model: syntax error; implementation: " + impl["kind"]})
             continue
         if mo != io:
